@@ -148,9 +148,22 @@ func newRolling(s *RollScn, name string) *log.RollingFileAppender {
 
 // spawnWriters starts one task per writer issuing raw Writes.
 func spawnWriters(x *Exec, s *RollScn, a *log.RollingFileAppender, writes *[]*rollWrite) {
+	spawnWritersPart(x, s, a, writes, 0, 1)
+}
+
+// spawnWritersPart starts the writers for part k of n of every writer's list
+// (phases separated by stop/start cycles).
+func spawnWritersPart(x *Exec, s *RollScn, a *log.RollingFileAppender, writes *[]*rollWrite, k, n int) {
 	for w := range s.Writers {
+		lo, hi := len(s.Writers[w])*k/n, len(s.Writers[w])*(k+1)/n
+		if lo == hi {
+			continue
+		}
 		x.Sim.Spawn(fmt.Sprintf("writer%d", w), func() {
 			for i, size := range s.Writers[w] {
+				if i < lo || i >= hi {
+					continue
+				}
 				rw := &rollWrite{ID: fmt.Sprintf("w%d-%d", w, i), Payload: rollPayload(w, i, size), Start: verifsim.Now()}
 				rw.StartStep, _ = stepTask()
 				*writes = append(*writes, rw)
@@ -232,14 +245,12 @@ func (c13) Run(x *Exec, scn any) {
 	boundaries := 0
 	clockEnv(x, s, &boundaries)
 	var writes []*rollWrite
-	spawnWriters(x, s, a, &writes)
 	restartsDone := 0
-	if s.Restarts > 0 {
-		// restarts happen only while no write is in progress: a controller task
-		// performs them after the writers have finished a phase; to keep the
-		// property's premise (Stop not concurrent with writes) they run at the end
-		// of the writer phase, followed by a second wave of writes.
-	}
+	// stop/start cycles happen only while no write is in progress (the property's premise):
+	// the writers' lists are cut into Restarts+1 phases with a stop/start between them,
+	// all within whatever simulated time the scheduler lets pass (often the same second)
+	phases := s.Restarts + 1
+	spawnWritersPart(x, s, a, &writes, 0, phases)
 	res := x.Sim.Run(nil)
 	if len(x.clientsStuck()) > 0 || res.StepCap {
 		o.violate("blocked", "C13/write-blocked", "writes did not finish: %+v", res)
@@ -258,6 +269,11 @@ func (c13) Run(x *Exec, scn any) {
 		})
 		x.Sim.Run(nil)
 		restartsDone++
+		spawnWritersPart(x, s, a, &writes, r+1, phases)
+		res = x.Sim.Run(nil)
+		if len(x.clientsStuck()) > 0 || res.StepCap {
+			o.violate("blocked", "C13/write-blocked", "writes after a restart did not finish: %+v", res)
+		}
 	}
 	x.Sim.Spawn("stopper", func() { a.Stop() })
 	x.Sim.Run(nil)
